@@ -18,7 +18,7 @@ EXPLANATION = (
     "write/read classifier (worder get_assignment_type) is guarded by a membership/equality test of that very value "
     "against a constant collection that folds to a subset of the interpreter's assignment operators "
     "(token.EXACT_TOKEN_TYPES ending in '=' minus comparisons).  R04.3 (=R06.1): the definition parser pairs default "
-    "values with exactly posonlyargs + args.  R04.4 (=R07.11): the import merger decides 'already imported' on (name, alias) pairs.  The text of the inlined code is not decided."
+    "values with exactly posonlyargs + args.  R04.4 (=R07.11): the import merger decides 'already imported' on (name, alias) pairs.  R04.5: the from-import of the inlined name is stripped only under the caller's `remove` flag.  The text of the inlined code is not decided."
 )
 ASSUMPTIONS = ["alias tracking is flow-insensitive (x = self.attr makes x an alias for the whole method)",
                "dict()/list()/set()/.copy()/sorted()/slicing create copies"]
@@ -152,3 +152,27 @@ def check(ctx, res) -> None:
     from .c07 import _alias_pair_rule
 
     _alias_pair_rule(ctx, res, "R04.4")
+
+    # ---- R04.5 the caller says whether the definition (and with it the import of the name in other modules) goes away:
+    # every call that strips the from-import of the inlined name is guarded by the `remove` flag
+    from ..cfg import CFG as _CFG5
+
+    n5 = 0
+    for f in sorted(idx.functions.values(), key=lambda f: f.qualname):
+        if f.unit.modname != "rope.refactor.inline":
+            continue
+        sites = [c for c in calls_in(f.node) if call_name(c) == "_remove_from"]
+        if not sites:
+            continue
+        cfg = _CFG5(f.node)
+        for c in sites:
+            n5 += 1
+            ok = False
+            for nd in cfg.node_containing(c):
+                if any(pol and isinstance(t, ast.Name) and t.id == "remove" for t, pol in cfg.guards(nd.id)):
+                    ok = True
+            res.add("R04.5", f"{f.qualname.split('.', 3)[-1]}|import-removal-guarded#{n5}", ok, f"{f.unit.rel}:{c.lineno}",
+                    "the import of the inlined name is stripped only when the caller asked for removal" if ok else
+                    f"{f.name} strips the from-import of the inlined name without looking at the `remove` flag: with remove=False (only_current) the other "
+                    "uses of the name in that module stay, but their import is gone (NameError)", function=f.qualname)
+    res.floor("R04.5", "import-stripping calls in inline", n5, 2)
